@@ -97,4 +97,50 @@ def running (s : State) : Nat := s.workers.countP WState.cmdRunning
 /-- number of workers inside a task function -/
 def busy (s : State) : Nat := s.workers.countP WState.isBusy
 
+/-! ### the tail of a target's task function (execution/execute.go executeTarget, execute_target.go)
+
+After the cache decision has fallen through to execution: run the command, re-run the output checks,
+mark the bin output executable, write the outputs to the CAS and — as the very last action, on the
+success path only — write the target result that makes the target a cache hit next time. -/
+
+/-- how the shell command of the target ended -/
+inductive CmdOutcome where
+  | ok          -- exit status 0 (or the target has no command)
+  | exitNonZero -- `exec.ExitError`
+  | timeout     -- the target's timeout fired: "timeout after …"
+  | cancelled   -- the build context was cancelled: `ctx.Err()` = context.Canceled is returned as is
+  | startError  -- the shell could not be started / log file could not be opened
+  deriving DecidableEq, Repr
+
+/-- result of the callback as the walker sees it -/
+inductive CbRes where
+  | ok | fail | cancelled
+  deriving DecidableEq, Repr
+
+structure TailIn where
+  cmd            : CmdOutcome
+  recheckOk      : Bool   -- output checks pass after the command
+  binOk          : Bool   -- chmod of the bin output succeeded
+  writeOutputsOk : Bool   -- every declared output exists and was written to the CAS
+  resultWriteOk  : Bool   -- the target result record was stored
+  deriving DecidableEq, Repr
+
+structure TailOut where
+  res           : CbRes
+  resultWritten : Bool
+  deriving DecidableEq, Repr
+
+def execTail (i : TailIn) : TailOut :=
+  match i.cmd with
+  | .exitNonZero => ⟨.fail, false⟩
+  | .timeout => ⟨.fail, false⟩
+  | .startError => ⟨.fail, false⟩
+  | .cancelled => ⟨.cancelled, false⟩
+  | .ok =>
+    if !i.recheckOk then ⟨.fail, false⟩
+    else if !i.binOk then ⟨.fail, false⟩
+    else if !i.writeOutputsOk then ⟨.fail, false⟩
+    else if !i.resultWriteOk then ⟨.fail, false⟩
+    else ⟨.ok, true⟩
+
 end Grog.Pool
